@@ -247,11 +247,16 @@ def _bound_from(facts: List[Fact], subject: str) -> int:
 def _exact_len(facts: List[Fact], subject: str) -> Optional[int]:
     for f in facts:
         n = f.node
-        if isinstance(n, ast.Compare) and len(n.ops) == 1 and isinstance(n.ops[0], ast.Eq) and f.truth:
+        if isinstance(n, ast.Compare) and len(n.ops) == 1 and ((isinstance(n.ops[0], ast.Eq) and f.truth) or (isinstance(n.ops[0], ast.NotEq) and not f.truth)):
             for a, b in ((n.left, n.comparators[0]), (n.comparators[0], n.left)):
                 if isinstance(a, ast.Call) and dotted(a.func) == "len" and len(a.args) == 1 and _int(b) is not None \
                         and expand(a.args[0], f.func, f.defs) == subject:
                     return _int(b)
+    # lower and upper bound that meet
+    lo = _bound_from(facts, subject)
+    ub = _len_upper_bound(facts, subject)
+    if ub is not None and lo == ub:
+        return lo
     return None
 
 
@@ -291,6 +296,8 @@ def _len_upper_bound(facts: List[Fact], text: str):
                         ub = c if f.truth else None
                     elif o is ast.Eq:
                         ub = c if f.truth else None
+                    elif o is ast.NotEq:
+                        ub = c if not f.truth else None
                     elif o is ast.Gt:
                         ub = c if not f.truth else None
                     elif o is ast.GtE:
@@ -665,10 +672,11 @@ def check(ctx, rep):
     pregate_stat_obligations(ctx, rep, "R03f", eff)
 
     # ------------------------------------------------------------------ R03g
+    pb_ = ctx.cls("protocols.base.BaseGopherProtocol")
     for P in ctx.protocol_classes():
-        ws = P.methods.get("write_status")
-        if ws is None:
-            continue
+        ws = prog.resolve_method(P, "write_status")
+        if ws is None or (ws.cls is not P and ws.cls is not None and pb_ is not None and prog.is_subclass(ws.cls, pb_)):
+            continue  # none, or inherited from another protocol class (decided there)
         meta = ws.params[2] if len(ws.params) > 2 else "meta"
         writes = [n for n in ast.walk(ws.node) if isinstance(n, ast.Call) and isinstance(n.func, ast.Attribute) and n.func.attr == "write"]
         problems = []
@@ -687,7 +695,7 @@ def check(ctx, rep):
             if not collapsed:
                 problems.append(f"the status line interpolates `{meta}` (error texts echo the percent-decoded selector) without removing CR/LF: "
                                 "a request such as /a%0Ab breaks the one-line status into two")
-        rep.add("R03g", f"{ws.qualname}: one-line status", not problems, ctx.where(ws), "; ".join(problems), key=f"R03g|{ws.qualname}")
+        rep.add("R03g", f"{P.qualname}.write_status: one-line status", not problems, ctx.where(ws), "; ".join(problems), key=f"R03g|{P.qualname}.write_status")
 
     # ------------------------------------------------------------------ R03e
     for H in ctx.handler_classes():
@@ -724,15 +732,24 @@ def check(ctx, rep):
                             key=f"R03e|{m.qualname}|{norm(call.func)}")
 
 
-def pregate_stat_obligations(ctx, rep, rule, eff):
-    """VFS calls made on a selector no filter has seen yet (multiplexer prologue, handler
-    constructors): must catch ValueError (embedded NUL) besides OSError."""
+def pregate_functions(ctx, eff):
+    """Code that runs on a selector before any filter has seen it: the multiplexer prologue with the
+    module-level helpers it calls, and the handler constructors with the self-methods they call."""
     prog = ctx.prog
     gh = ctx.func("handlers.HandlerMultiplexer.getHandler")
     pre = []
-    if gh is not None:
-        pre.append((gh, None))
     seen_pre = set()
+    if gh is not None:
+        work = [gh]
+        while work:
+            g = work.pop()
+            if (g, None) in seen_pre:
+                continue
+            seen_pre.add((g, None))
+            pre.append((g, None))
+            for call, t in eff.calls_of(g, None):
+                if t.kind == "repo" and not t.by_name:
+                    work.extend(f2 for f2 in t.funcs if f2.cls is None and f2.module is g.module)
     for H in ctx.handler_classes():
         init = prog.resolve_method(H, "__init__")
         work = [init] if init is not None else []
@@ -745,6 +762,14 @@ def pregate_stat_obligations(ctx, rep, rule, eff):
             for call, t in eff.calls_of(m, H):
                 if t.kind == "repo" and (t.bound_cls is not None or (call.args and dotted(call.args[0]) == "self")):
                     work.extend(t.funcs)
+    return pre
+
+
+def pregate_stat_obligations(ctx, rep, rule, eff):
+    """VFS calls made on a selector no filter has seen yet (multiplexer prologue, handler
+    constructors): must catch ValueError (embedded NUL) besides OSError."""
+    prog = ctx.prog
+    pre = pregate_functions(ctx, eff)
     done_calls = set()
     for m, H in pre:
         for call, t in eff.calls_of(m, H):
